@@ -19,6 +19,12 @@ package fuse
 //   reads     every (offset,size) with 0 <= offset <= total+2, 0 <= size <= total+3
 //   oracle    resp.Data == file[min(offset,total) : min(offset+size,total)], err == nil, no panic
 //
+// Part 3 (several Opens of one file node): (a) every layout of <= 3 blobs x the
+// first Open cancelled at its k-th blob-size lookup (or completing), then the
+// node is opened again and every range is read through the new handle (and the
+// first one); (b) two goroutines open the same node and read everything, every
+// blob-size lookup is a scheduling point, all interleavings within the bound.
+//
 // Part 2 (FINE, sync of internal/bloblru + internal/fuse replaced by vsync): two
 // registered readers on one shared open handle issue overlapping reads; the blob
 // cache has room for one blob (every further blob evicts); repo.LoadBlob is a
@@ -312,9 +318,30 @@ type verifC46FakeRepo struct {
 	label             map[restic.ID]string
 	x                 *xplore.Exec
 	loads             int
+	// part 3
+	onLookup    func(n int) // called with the ordinal of every LookupBlobSize
+	lookups     int
+	gateLookups bool // LookupBlobSize of registered goroutines is a scheduling point
+	lookupNo    map[string]int
 }
 
 func (f *verifC46FakeRepo) LookupBlobSize(bh restic.BlobHandle) (uint, bool) {
+	if f.onLookup != nil {
+		f.mu.Lock()
+		f.lookups++
+		n := f.lookups
+		f.mu.Unlock()
+		f.onLookup(n)
+	}
+	if f.x != nil && f.gateLookups {
+		if proc := f.x.ProcOfCaller(); proc != "" {
+			f.mu.Lock()
+			f.lookupNo[proc]++
+			n := f.lookupNo[proc]
+			f.mu.Unlock()
+			f.x.Gate(xplore.Event{Key: fmt.Sprintf("%s:lookup#%d", proc, n), Proc: proc, Kind: "lookup"})
+		}
+	}
 	b, ok := f.blobs[bh.ID]
 	return uint(len(b)), ok && bh.Type == restic.DataBlob
 }
@@ -500,6 +527,177 @@ var verifC46ConcScenarios = []verifC46Conc{
 	{"221B", []int{2, 2, 1}, "B", map[string][]verifC46ReadSpec{"R1": {{0, 5}}, "R2": {{3, 2}, {1, 2}}}},
 }
 
+// ---------- Part 3: several Opens of one file node (sequential with an interrupted Open, and concurrent) ----------
+
+func verifC46Node(layout []int, mode string, x *xplore.Exec) (*verifC46FakeRepo, *file, []byte, error) {
+	blobs, content := verifC46File(layout, mode)
+	repo := &verifC46FakeRepo{blobs: map[restic.ID][]byte{}, label: map[restic.ID]string{}, x: x, lookupNo: map[string]int{}}
+	var ids restic.IDs
+	for i, b := range blobs {
+		id := restic.Hash(b)
+		repo.blobs[id] = b
+		if _, ok := repo.label[id]; !ok {
+			repo.label[id] = fmt.Sprintf("b%d", i)
+		}
+		ids = append(ids, id)
+	}
+	root := &Root{repo: repo, blobCache: bloblru.New(64 << 20)}
+	node := &data.Node{Name: "f", Type: data.NodeTypeFile, Mode: 0o644, Size: uint64(len(content)), Content: ids}
+	f, err := newFile(root, func() {}, inodeFromNode(1, node), node)
+	return repo, f, content, err
+}
+
+// verifC46ReadAll issues every (offset, size) read on the handle and returns the first mismatch.
+func verifC46ReadAll(ctx context.Context, h fs.Handle, content []byte) string {
+	total := len(content)
+	for off := 0; off <= total+1; off++ {
+		for size := 0; size <= total+2; size++ {
+			got, err, panicked, pmsg := verifC46Read(ctx, h, off, size)
+			want := verifC46Want(content, off, size)
+			switch {
+			case panicked:
+				return fmt.Sprintf("Read(%d,%d) panicked: %s", off, size, pmsg)
+			case err != nil:
+				return fmt.Sprintf("Read(%d,%d) returned error %v", off, size, err)
+			case !bytes.Equal(got, want):
+				return fmt.Sprintf("Read(offset=%d,size=%d) returned %v, want %v (file %v)", off, size, got, want, content)
+			}
+		}
+	}
+	return ""
+}
+
+func verifC46Opens(t *testing.T, r *vh.Run) {
+	// (a) sequential: the first Open is interrupted (its context is cancelled when the k-th blob size is
+	// looked up) or completes; then the same node is opened again and everything is read through the new
+	// handle (and through the first one, if there is one)
+	for _, layout := range verifC46Layouts(3) {
+		if len(layout) == 0 {
+			continue
+		}
+		for _, mode := range []string{"A", "B"} {
+			ck := fmt.Sprintf("opens|seq|%s|%s", verifC46LayoutString(layout), mode)
+			if !r.Case(ck) {
+				continue
+			}
+			for k := 1; k <= len(layout)+1; k++ {
+				repo, f, content, err := verifC46Node(layout, mode, nil)
+				if err != nil {
+					t.Fatal(err)
+				}
+				ctx1, cancel := context.WithCancel(context.Background())
+				repo.onLookup = func(n int) {
+					if n == k {
+						cancel()
+					}
+				}
+				h1, err1 := f.Open(ctx1, &fuse.OpenRequest{}, &fuse.OpenResponse{})
+				cancel()
+				repo.onLookup = nil
+				r.Eval(1)
+				r.Trace(1)
+				if err1 != nil {
+					r.NontrivialByConstruction(1)
+				}
+				h2, err2 := f.Open(context.Background(), &fuse.OpenRequest{}, &fuse.OpenResponse{})
+				key := fmt.Sprintf("C46|opens|seq|%s|%s|cancel-at-lookup=%d", verifC46LayoutString(layout), mode, k)
+				if err2 != nil {
+					r.Violationf(ck, key+"|open-failed", key, "Open after an Open that was cancelled at blob-size lookup %d (first Open: %v) failed: %v", k, err1, err2)
+					continue
+				}
+				if bad := verifC46ReadAll(context.Background(), h2, content); bad != "" {
+					r.Violationf(ck, key+"|wrong-bytes", key, "second Open of a file node whose first Open was cancelled at blob-size lookup %d (first Open: %v): %s", k, err1, bad)
+				}
+				if err1 == nil {
+					if bad := verifC46ReadAll(context.Background(), h1, content); bad != "" {
+						r.Violationf(ck, key+"|wrong-bytes-first-handle", key, "first handle after a second Open of the same node: %s", bad)
+					}
+				}
+				r.Outcome(fmt.Sprintf("opens|seq|first-open-failed=%v", err1 != nil))
+			}
+		}
+	}
+	// (b) concurrent: two goroutines open the same node and read everything; every blob-size lookup is a
+	// scheduling point, all interleavings within the preemption bound
+	bound := vh.Pick(r, 2, 3)
+	for _, layout := range [][]int{{2, 1}, {1, 0, 2}, {5, 2, 1}} {
+		layout := layout
+		name := "opens|conc|" + verifC46LayoutString(layout)
+		type st struct {
+			content []byte
+			bad     map[string]string
+			done    map[string]bool
+			handles map[string]fs.Handle
+			repo    *verifC46FakeRepo
+			mu      gosync.Mutex
+		}
+		sc := xplore.Scenario{
+			Start: func(x *xplore.Exec) {
+				repo, f, content, err := verifC46Node(layout, "A", x)
+				if err != nil {
+					panic(err)
+				}
+				repo.gateLookups = true
+				s := &st{content: content, bad: map[string]string{}, done: map[string]bool{}, handles: map[string]fs.Handle{}, repo: repo}
+				x.Data = s
+				for _, g := range []string{"O1", "O2"} {
+					g := g
+					x.Go(g, func() {
+						// only the Opens interleave; the handles are read after the execution (in check)
+						h, err := f.Open(x.Ctx, &fuse.OpenRequest{}, &fuse.OpenResponse{})
+						s.mu.Lock()
+						if err != nil {
+							s.bad[g] = fmt.Sprintf("Open failed: %v", err)
+						}
+						s.handles[g], s.done[g] = h, true
+						s.mu.Unlock()
+					})
+				}
+			},
+		}
+		check := func(x *xplore.Exec) {
+			s := x.Data.(*st)
+			r.State(name + "|" + strings.Join(x.Trace, ">"))
+			switched, last := 0, ""
+			for _, k := range x.Trace {
+				p := k[:strings.IndexByte(k, ':')]
+				if last != "" && p != last {
+					switched++
+				}
+				last = p
+			}
+			if switched >= 2 {
+				r.Nontrivial(name + "|" + strings.Join(x.Trace, ">"))
+			}
+			var bad []string
+			s.repo.x = nil // the execution is over: loads are not gated any more
+			for _, g := range []string{"O1", "O2"} {
+				if s.done[g] && s.bad[g] == "" && s.handles[g] != nil {
+					s.bad[g] = verifC46ReadAll(context.Background(), s.handles[g], s.content)
+				}
+				switch {
+				case !s.done[g] && !x.Horizon:
+					bad = append(bad, g+" never finished")
+				case s.bad[g] != "":
+					bad = append(bad, g+": "+s.bad[g])
+				}
+			}
+			for _, p := range x.Panics {
+				bad = append(bad, "panic: "+p)
+			}
+			if x.Deadlock {
+				bad = append(bad, "deadlock")
+			}
+			r.Outcome(fmt.Sprintf("%s|ok=%v", name, len(bad) == 0))
+			if len(bad) > 0 {
+				vx.Violation(r, name, x, "C46|"+name+"|wrong", strings.Join(bad, "\n"), map[string]any{"layout": layout})
+			}
+		}
+		stt := vx.Explore(r, t, name, sc, xplore.Options{Policy: xplore.Preempt, Bound: bound, LockPoints: true, MaxSteps: 2000}, check)
+		r.Note("%s: bound=%d execs(this shard)=%d", name, bound, stt.Execs)
+	}
+}
+
 func verifC46Fine(t *testing.T, r *vh.Run) {
 	bound := vh.Pick(r, 3, 4)
 	for _, sc := range verifC46ConcScenarios {
@@ -515,10 +713,12 @@ func TestVerif_C46(t *testing.T) {
 	defer r.Finish()
 	r.Rule("ENUM: every blob layout (<=4 blobs, sizes {0,1,2,5}) x content mode {distinct, repeated IDs} x node.Size {exact,0,total+3} x cache {64MiB, one blob, none} x every (offset<=total+2, size<=total+3), all reads of a variant in sequence on one open handle and one cache; " +
 		"non-trivial read = spans a blob boundary, starts inside a blob, covers an empty blob or extends past the end (counted by construction; categories in counters). " +
+		"OPENS: a second Open of the same node after an Open cancelled at each blob-size lookup, and two concurrent Opens with every lookup as scheduling point; " +
 		"FINE: two readers on a shared handle with a one-blob cache, all orders of cache-mutex acquisitions and load completions within the preemption bound; non-trivial = execution with >= 2 switches between the readers; states = distinct schedules")
 	r.Assume("the FUSE kernel/userspace transport is not exercised: handlers are called in-process with the request/response shapes the anacrolix/fuse server builds",
 		"FINE part: accesses outside bloblru's critical sections are thread-local (free-running -race pass), LoadBlob never fails")
 	verifC46Enum(t, r)
+	verifC46Opens(t, r)
 	verifC46Fine(t, r)
 }
 
